@@ -152,6 +152,50 @@ def fam_systematic(names, rng, limit=None, over=None):
     return ('systematic-one-deviation', jobs)
 
 
+SLOW_OPS = {
+    'upload': ['CreateMultipartUpload', 'UploadPart', 'CompleteMultipartUpload',
+               'AbortMultipartUpload', 'PutObject'],
+    'copy': ['HeadObject', 'CreateMultipartUpload', 'UploadPartCopy',
+             'CompleteMultipartUpload', 'CopyObject'],
+    'download': ['HeadObject', 'GetObject'],
+    'delete': ['DeleteObject'],
+}
+
+
+def fam_slow_requests(names, rng, n, cancels=True):
+    """One request that is slow to reach the service, or whose response is
+    slow, while a source read / callback / other request fails or the user
+    cancels: the windows in which a request is in flight when the transfer
+    ends."""
+    jobs = []
+    for name in names:
+        sc0 = S.base(name)
+        kind = sc0['transfers'][0]['kind']
+        steps, ncalls = S.probe(sc0)
+        for op in SLOW_OPS[kind]:
+            for phase in ('begin', 'end'):
+                for nth in (1, 2):
+                    if nth == 2 and op not in ('UploadPart', 'UploadPartCopy', 'GetObject'):
+                        continue
+                    la = [{'op': op, 'phase': phase, 'nth': nth, 'd': 1.0}]
+                    plans = [[]]
+                    for on, upto in S.ENV_FAULTS[kind]:
+                        plans += [[{'on': on, 'nth': k, 'x': 0}] for k in range(1, min(upto, 2) + 1)]
+                    plans += [[{'on': 's3', 'seq': q, 'x': 0}] for q in range(1, ncalls + 1)]
+                    for fl in plans:
+                        sc = copy.deepcopy(sc0)
+                        sc['latency'] = la
+                        sc['faults'] = fl
+                        jobs += S.det_schedules(sc, n - 1, rng)
+                    if cancels:
+                        for g in range(1, steps + 1, 3):
+                            sc = copy.deepcopy(sc0)
+                            sc['latency'] = la
+                            sc['cancel'] = {'how': 'future', 'x': 0, 'gate': g}
+                            jobs += S.det_schedules(sc, 0, rng)[1:]
+    return ('slow-request', jobs)
+
+
 def fam_cleanup_faults(rng, n):
     """A failing/cancelled file download whose cleanup close() fails too."""
     jobs = []
@@ -335,6 +379,8 @@ def families(pid, tier, rng):
             fam_env_faults([n for n in S.ALL if n not in ('up-empty', 'dl-empty')], rng, per=2 * k),
             fam_streams(['dl-path-mp', 'dl-ns-mp', 'dl-seek-1'], rng, per=1),
             fam_failing_abort(rng, 2 * k),
+            fam_slow_requests(['up-seek-mp', 'copy-mp', 'dl-ns-mp', 'dl-path-1', 'up-ns-1'],
+                              rng, 1, cancels=False),
         ]
     if pid == 'C04':
         return [
@@ -362,6 +408,7 @@ def families(pid, tier, rng):
             fam_cancel(S.MULTIPART, rng, ('future', 'exit-exc'),
                        stride=1, per=2 * k),
             fam_failing_abort(rng, 3 * k),
+            fam_slow_requests(S.MULTIPART, rng, 1 * k),
         ]
     if pid == 'C06':
         names = ['dl-path-mp', 'dl-path-1', 'dl-empty']
@@ -372,6 +419,7 @@ def families(pid, tier, rng):
             fam_streams(['dl-path-mp', 'dl-path-1'], rng, per=1),
             fam_cancel(names, rng, ('future', 'exit-kbi'), stride=1, per=1 * k),
             fam_cleanup_faults(rng, 3 * k),
+            fam_slow_requests(['dl-path-mp', 'dl-path-1'], rng, 1),
         ]
     if pid == 'C07':
         return [
@@ -381,6 +429,7 @@ def families(pid, tier, rng):
                        ('shutdown', 'exit-exc', 'exit-kbi', 'kbi-result'),
                        stride=2 if not T else 1),
             fam_mixes(rng, 15 * k, 2, cancels=True),
+            fam_slow_requests(['up-path-mp', 'copy-mp', 'dl-path-mp', 'dl-ns-mp'], rng, 1),
         ]
     if pid == 'C08':
         two = {'subs': TWO_SUBS}
